@@ -163,7 +163,7 @@ func Reshape(rng *rand.Rand, tmpl interface{}, o GenOpts) interface{} {
 		}
 		return l
 	case *Obj:
-		obj := &Obj{}
+		obj := &Obj{Keys: make([]string, 0, len(x.Keys)), Vals: make([]interface{}, 0, len(x.Keys))}
 		for _, i := range rng.Perm(len(x.Keys)) {
 			obj.Keys = append(obj.Keys, x.Keys[i])
 			obj.Vals = append(obj.Vals, Reshape(rng, x.Vals[i], o))
@@ -202,6 +202,7 @@ func GenJSONFile(rng *rand.Rand, nRows int, o JSONFileOpts) *JSONFile {
 		T = 100
 	}
 	f := &JSONFile{Style: rng.Intn(2), CRLF: rng.Intn(6) == 0, NoFinal: rng.Intn(4) == 0}
+	f.Rows = make([]*Obj, 0, nRows)
 	for i := 0; i < nRows; i++ {
 		var row *Obj
 		if i < T {
@@ -217,6 +218,7 @@ func GenJSONFile(rng *rand.Rand, nRows int, o JSONFileOpts) *JSONFile {
 
 func SerialiseJSONRows(rng *rand.Rand, rows []*Obj, style int, crlf, noFinal bool) []byte {
 	var b bytes.Buffer
+	b.Grow(len(rows)*160 + 64)
 	w := &JSONWriter{Rng: rng, Style: style}
 	for i, r := range rows {
 		w.Write(&b, r)
